@@ -65,7 +65,8 @@ def replay_pinned(fn, failed, timeout_ms=5000):
     st = explore(pinned, timeout_ms=timeout_ms, max_paths=50, stop_on_fail=True)
     names = [f["name"] for f in st.failed]
     ok = failed["name"] in names or bool(names)
-    info = st.failed[0].get("info") if st.failed else None
+    same = [f for f in st.failed if f["name"] == failed["name"]]
+    info = (same or st.failed)[0].get("info") if st.failed else None
     return ok, dict(failed_again=names[:3], info=info, paths=st.paths)
 
 
